@@ -227,6 +227,17 @@ def _c18_case(args):
     try:
         try:
             b = H.build(spec)
+            if isinstance(idx, tuple) and idx and idx[0] == "sim":
+                # a what-if simulation is created (and switched off again, as its constructor does), then one ordinary edit
+                from . import sim as SIM
+                _, cname, k_edit = idx
+                mk, _sedit = SIM.change_lists(b, spec)[cname]
+                date = SIM.dates_for(b).get("first")
+                simu = H.ModelingUpdate(mk(b), date)
+                simu.set_updated_values(); simu.reset_values()
+                eds = H.numeric_edits(spec)
+                eds[k_edit].live(b); out["slot"] += f"|after simulation[{cname}] then {eds[k_edit].name}"
+                idx = None
             if idx is not None:
                 eds = H.numeric_edits(spec) + H.link_edits(spec)
                 for k_ in (idx if isinstance(idx, tuple) else (idx,)):
@@ -286,8 +297,13 @@ def run_c18(tier, seed, procs=16):
         allp = [(i, j) for i in range(nn) for j in range(nn) if i != j]
         for p_ in (allp if tier == "thorough" and tname in ("single", "two_independent_chains") else rnd.sample(allp, min(len(allp), 40 if tier == "quick" else 150))):
             items.append((tname, spec, p_, "full-pass"))
+        if tname in ("single", "two_independent_chains", "server_shared_by_two_journeys"):
+            from . import sim as SIM
+            for cname in list(SIM.change_lists(None, spec))[:3]:
+                for k_edit in (range(nn) if tier == "thorough" else rnd.sample(range(nn), min(nn, 8))):
+                    items.append((tname, spec, ("sim", cname, k_edit), "full-pass"))
     res = H.run_parallel(_c18_case, items, procs)
-    return _report("C18", res, lambda r: f"{r['topology']}|{r['slot']}", "one case = (topology, optionally after one edit or a history of two numeric edits, a recomputation request: full second pass / each object alone / random subset of objects / read-explain-export); every calculated attribute AND every input compared before/after on physical values",
+    return _report("C18", res, lambda r: f"{r['topology']}|{r['slot']}", "one case = (topology, optionally after one edit, a history of two numeric edits, or a what-if simulation followed by one edit, a recomputation request: full second pass / each object alone / random subset of objects / read-explain-export); every calculated attribute AND every input compared before/after on physical values",
                    f"{len(T)} topologies x 4 request kinds (+ after {'every' if tier == 'thorough' else 'a sixth of the'} single edits)")
 
 
